@@ -961,6 +961,41 @@ def drive_agen(ops, n, P):
                 raise AssertionError("generator not exhausted")
             except StopIteration:
                 pass
+        elif op == "close":
+            g.generator.close()         # the consumer gives up early
+        else:
+            raise KeyError(op)
+        P(j, g)
+
+
+def drive_agenfail(ops, n, P):
+    @A()
+    def aval():
+        return 41
+
+    @asynq.generator.async_generator()
+    def gen():
+        v = yield aval.asynq()
+        raise VErr("async generator body failed after %r" % (v,))
+
+    g = None
+    t = None
+    for j, op in enumerate(ops):
+        if op == "create":
+            g = gen()
+        elif op == "next_task":
+            t = next(g)
+        elif op == "compute_fail":
+            try:
+                t.value()
+                raise AssertionError("the task of a failing body did not fail")
+            except VErr:
+                pass
+        elif op == "next_after":
+            try:
+                next(g)
+            except BaseException:  # noqa   (what advancing a failed generator does is not the subject here)
+                pass
         else:
             raise KeyError(op)
         P(j, g)
@@ -970,7 +1005,7 @@ DRIVERS = {
     "future": drive_future, "const": drive_const, "errfut": drive_errfut, "agvalue": drive_agvalue,
     "task": drive_task, "batch": drive_batch, "dbatch": drive_dbatch, "item": drive_item, "ditem": drive_ditem,
     "sched": drive_sched, "scoped": drive_scoped, "override": drive_override, "propoverride": drive_propoverride,
-    "agen": drive_agen,
+    "agen": drive_agen, "agenfail": drive_agenfail,
 }
 
 
